@@ -77,7 +77,7 @@ PROPS = {
                          'rowan GreenNodeBuilder modelled as a rose-tree builder; oq3_lexer::unescape not modelled (its diagnostics are ignored in the comparison)',
                          'hook: parser stuck detector (verif_tick) turns a hang of the implementation into a panic'],
         'assumptions': ['inputs shorter than 2^32 bytes; nesting depth within the process stack (measured: > 5000 levels on 8 MiB); the parser step limit (15e6 look-aheads without progress) is not modelled'],
-        'partial': ['theorem B part 3 (trivia builder / tree builder / validation totality on the parser\'s steps) is not proved; only exercised by the bounded-exhaustive correspondence and the implementation oracle'],
+        'partial': ['that the validation pass (validation.rs unwraps on LITERAL / TIMING_LITERAL nodes of the finished tree) never panics is not proved; only exercised by the bounded-exhaustive correspondence and the implementation oracle'],
     },
     'C02': {
         'coq': 'Props/C02.v',
